@@ -7,6 +7,7 @@ import (
 	"sort"
 	"strconv"
 	"strings"
+	"sync"
 	"time"
 	"unsafe"
 )
@@ -15,7 +16,21 @@ import (
 // everything reachable from the registered roots. Two digests of the same roots
 // are equal iff no reachable leaf changed. What is NOT walked is recorded
 // (Skipped) so that the exclusion is visible in the evidence:
-//   - channels, sync.* and sync/atomic.* values                     (skipped)
+//   - channels, sync.Mutex/RWMutex/Once/WaitGroup/Cond, atomic integers/flags (skipped)
+//   - sync.Map, atomic.Value and atomic.Pointer[T] ARE walked: a sync.Map is a map with
+//     its own lock, i.e. the usual shape of a memo / cache. Its entries are listed with
+//     Range, ordered by the rendering of the key, and each value is walked like any other
+//     value (a third-party value such as a jose.Signer by pointer identity). Below a
+//     package-level variable or a caller-supplied object the entries are ordinary leaves:
+//     a cache that grows is state shared by every instance of the process, and the frame
+//     condition reports it as a hidden write. Below an INSTANCE (SyncGuarded) they are
+//     internally synchronised state of that instance and are kept apart in Guarded, like
+//     the fields behind a mutex (no unsynchronised write; what the memo does to the
+//     behaviour is the differential oracle's business).
+//   - sync.Pool is NOT walked and not compared (listed in Skipped): its contents are
+//     transient by contract (the runtime may drop any element at any GC, Get may return
+//     any element or none), so neither "unchanged" nor "changed" means anything. A value
+//     that comes out of a pool dirty is caught where it is used (differential oracle).
 //   - structs of packages outside the module and outside the small
 //     allow-list below: by pointer -> identity only, by value -> skipped  (opaque)
 //   - fields of a struct that itself holds a sync.Mutex/RWMutex: kept apart in
@@ -25,6 +40,7 @@ type Digest struct {
 	Guarded map[string]string
 	Skipped map[string]int // type -> occurrences
 	GTypes  map[string]int // struct types treated as mutex-guarded
+	Walked  map[string]int // sync.Map / atomic boxes whose contents were walked
 	// OnceInit: leaves below a struct that itself holds a sync.Once. They are compared like any
 	// other leaf, except that the checker accepts their FIRST initialisation (zero value -> value):
 	// that is the lazy-initialisation idiom the Once exists for. Any later change is a write.
@@ -34,7 +50,10 @@ type Digest struct {
 	// variables, caller-supplied objects); the walk records the alias and does not
 	// descend, so that one write is reported once, at its owner.
 	Stop map[unsafe.Pointer]string
-	seen map[seenKey]string
+	// SyncGuarded: entries of sync.Map / atomic.Value / atomic.Pointer are recorded as
+	// guarded (not compared) instead of as leaves; set for the digest of an instance.
+	SyncGuarded bool
+	seen        map[seenKey]string
 }
 
 type seenKey struct {
@@ -43,7 +62,7 @@ type seenKey struct {
 }
 
 func NewDigest() *Digest {
-	return &Digest{Leaves: map[string]string{}, Guarded: map[string]string{}, Skipped: map[string]int{}, GTypes: map[string]int{}, OnceInit: map[string]bool{}, seen: map[seenKey]string{}}
+	return &Digest{Leaves: map[string]string{}, Guarded: map[string]string{}, Skipped: map[string]int{}, GTypes: map[string]int{}, Walked: map[string]int{}, OnceInit: map[string]bool{}, seen: map[seenKey]string{}}
 }
 
 const modulePrefix = "github.com/zitadel/oidc/v3"
@@ -67,6 +86,8 @@ const (
 	polExported
 	polOpaque
 	polSkip
+	polSyncMap   // sync.Map: entries walked
+	polAtomicBox // atomic.Value, atomic.Pointer[T]: the loaded value is walked
 )
 
 func policy(t reflect.Type) structPolicy {
@@ -77,8 +98,12 @@ func policy(t reflect.Type) structPolicy {
 		return polWalk // unnamed struct
 	case strings.HasPrefix(pp, modulePrefix):
 		return polWalk
+	case pp == "sync" && t.Name() == "Map":
+		return polSyncMap
+	case pp == "sync/atomic" && (t.Name() == "Value" || strings.HasPrefix(t.Name(), "Pointer[")):
+		return polAtomicBox
 	case pp == "sync" || pp == "sync/atomic" || strings.HasPrefix(pp, "internal/"):
-		return polSkip
+		return polSkip // Mutex, RWMutex, Once, WaitGroup, Cond, Pool (see the note on sync.Pool above), atomic integers and flags
 	case exportedOnly[full]:
 		return polExported
 	case fullWalk[full]:
@@ -223,6 +248,12 @@ func (d *Digest) walk(p string, v reflect.Value, g bool, depth int) {
 		case polSkip:
 			d.Skipped[t.String()]++
 			return
+		case polSyncMap:
+			d.walkSyncMap(p, v, g, depth)
+			return
+		case polAtomicBox:
+			d.walkAtomicBox(p, v, g, depth)
+			return
 		case polOpaque:
 			if s, ok := addressable(v).Interface().(fmt.Stringer); ok && t.PkgPath() == "golang.org/x/text/language" {
 				d.set(p, "tag:"+s.String(), g)
@@ -297,6 +328,55 @@ func (d *Digest) walk(p string, v reflect.Value, g bool, depth int) {
 	}
 }
 
+// walkSyncMap lists the entries of a sync.Map (Range), ordered by the rendering of the key.
+func (d *Digest) walkSyncMap(p string, v reflect.Value, g bool, depth int) {
+	av := v
+	if !av.CanAddr() {
+		av = addressable(v) // a copy shares the map's internal root: Range sees the same entries
+	}
+	m := reflect.NewAt(av.Type(), unsafe.Pointer(av.UnsafeAddr())).Interface().(*sync.Map)
+	g = g || d.SyncGuarded
+	type kv struct {
+		k string
+		v any
+	}
+	var ents []kv
+	m.Range(func(k, val any) bool {
+		ents = append(ents, kv{fmt.Sprintf("%T:%v", k, k), val})
+		return true
+	})
+	sort.Slice(ents, func(i, j int) bool { return ents[i].k < ents[j].k })
+	d.Walked["sync.Map"]++
+	d.set(p+".len", strconv.Itoa(len(ents)), g)
+	for i := range ents {
+		d.walk(p+"["+strconv.Quote(ents[i].k)+"]", reflect.ValueOf(&ents[i].v).Elem(), g, depth+1)
+	}
+}
+
+// walkAtomicBox walks the value currently held by an atomic.Value / atomic.Pointer[T].
+func (d *Digest) walkAtomicBox(p string, v reflect.Value, g bool, depth int) {
+	av := v
+	if !av.CanAddr() {
+		av = addressable(v)
+	}
+	ptr := reflect.NewAt(av.Type(), unsafe.Pointer(av.UnsafeAddr()))
+	load := ptr.MethodByName("Load")
+	if !load.IsValid() {
+		d.Skipped[v.Type().String()]++
+		return
+	}
+	d.Walked["atomic box"]++
+	out := load.Call(nil)[0]
+	g = g || d.SyncGuarded
+	if out.Kind() == reflect.Interface { // atomic.Value
+		d.walk(p+".load", out, g, depth+1)
+		return
+	}
+	tmp := reflect.New(out.Type()).Elem()
+	tmp.Set(out)
+	d.walk(p+".load", tmp, g, depth+1)
+}
+
 // Diff returns the sorted paths whose leaf differs between a and b (added,
 // removed or changed), each rendered "path: old => new".
 func Diff(a, b map[string]string) (paths []string, rendered []string) {
@@ -347,6 +427,10 @@ type Snap struct {
 	keys   []reflect.Value
 	vals   []*Snap
 	skip   bool
+	// sync.Map: the entries at snapshot time (values by identity); restored with Clear + Store
+	syncMap bool
+	smKeys  []any
+	smVals  []any
 }
 
 type snapper struct{ seen map[seenKey]*Snap }
@@ -382,7 +466,7 @@ func (s *snapper) fill(n *Snap, v reflect.Value, depth int) *Snap {
 			return n
 		}
 		et := t.Elem()
-		if et.Kind() == reflect.Struct && policy(et) != polWalk && policy(et) != polExported {
+		if pol := policy(et); et.Kind() == reflect.Struct && (pol == polOpaque || pol == polSkip) {
 			return n // identity only
 		}
 		k := seenKey{v.UnsafePointer(), et}
@@ -407,6 +491,20 @@ func (s *snapper) fill(n *Snap, v reflect.Value, depth int) *Snap {
 		pol := policy(t)
 		if pol == polSkip || pol == polOpaque {
 			n.skip = true
+			return n
+		}
+		if pol == polSyncMap {
+			n.syncMap = true
+			if v.CanAddr() {
+				reflect.NewAt(t, unsafe.Pointer(v.UnsafeAddr())).Interface().(*sync.Map).Range(func(k, val any) bool {
+					n.smKeys, n.smVals = append(n.smKeys, k), append(n.smVals, val)
+					return true
+				})
+			}
+			return n
+		}
+		if pol == polAtomicBox {
+			save() // the box is one word (pair): written back as a whole
 			return n
 		}
 		for i := 0; i < t.NumField(); i++ {
@@ -473,6 +571,16 @@ func (n *Snap) restore(v reflect.Value, done map[*Snap]bool) {
 			n.elem.restore(addressable(n.val.Elem()), done)
 		}
 	case reflect.Struct:
+		if n.syncMap {
+			if v.CanAddr() {
+				m := reflect.NewAt(v.Type(), unsafe.Pointer(v.UnsafeAddr())).Interface().(*sync.Map)
+				m.Clear()
+				for i, k := range n.smKeys {
+					m.Store(k, n.smVals[i])
+				}
+			}
+			return
+		}
 		if n.fields == nil {
 			if n.val.IsValid() {
 				v.Set(n.val)
